@@ -65,8 +65,10 @@ fn class(e: IdeErrorKind) -> u8 {
     match e { IdeErrorKind::InvalidInput => 1, IdeErrorKind::Forbidden => 2, IdeErrorKind::NotFound => 3, IdeErrorKind::Conflict => 4, IdeErrorKind::Unauthorized => 5, IdeErrorKind::TooLarge => 6, IdeErrorKind::Internal => 7, _ => 8 }
 }
 fn tree_paths(nodes: &[IdeTreeNode], out: &mut Vec<String>) { for n in nodes { out.push(n.path.clone()); tree_paths(&n.children, out); } }
-fn leaky_listing(paths: &[String]) -> bool {
-    paths.iter().any(|p| p.split('/').any(|c| c.starts_with('.')) || p.contains("deep.st") || p.contains("secret"))
+/// a listing leaks when it names a hidden entry or something whose real location is outside the project
+fn leaky_listing(paths: &[String], proj: &Path) -> bool {
+    let root = proj.canonicalize().unwrap_or_else(|_| proj.to_path_buf());
+    paths.iter().any(|p| p.split('/').any(|c| c.starts_with('.')) || match proj.join(p).canonicalize() { Ok(c) => !c.starts_with(&root), Err(_) => false })
 }
 
 const COMPONENTS: &[&str] = &["main.st", "sub", "a.st", "inner", "b.st", "new.st", "newdir", "x.st", ".hidden", "h.st", ".env", "linkfile.st", "linkdir", "deep.st",
@@ -106,8 +108,8 @@ fn run_calls(id: &str, calls: &[Call], workdir: &str, out: &mut impl Write) {
             3 => match ide.create_entry(tok, &c.p, true, None, c.we) { Ok(r) => (0, false, r.path), Err(e) => (class(e.kind()), false, String::new()) },
             4 => match ide.delete_entry(tok, &c.p, c.we) { Ok(r) => (0, false, r.path), Err(e) => (class(e.kind()), false, String::new()) },
             5 => match ide.rename_entry(tok, &c.p, &c.p2, c.we) { Ok(r) => (0, false, r.path), Err(e) => (class(e.kind()), false, String::new()) },
-            6 => match ide.list_tree(tok) { Ok(n) => { let mut ps = Vec::new(); tree_paths(&n, &mut ps); (0, leaky_listing(&ps), String::new()) } Err(e) => (class(e.kind()), false, String::new()) },
-            7 => match ide.list_sources(tok) { Ok(ps) => (0, leaky_listing(&ps), String::new()), Err(e) => (class(e.kind()), false, String::new()) },
+            6 => match ide.list_tree(tok) { Ok(n) => { let mut ps = Vec::new(); tree_paths(&n, &mut ps); (0, leaky_listing(&ps, &proj), String::new()) } Err(e) => (class(e.kind()), false, String::new()) },
+            7 => match ide.list_sources(tok) { Ok(ps) => (0, leaky_listing(&ps, &proj), String::new()), Err(e) => (class(e.kind()), false, String::new()) },
             _ => match ide.workspace_search(tok, "SENTINEL", None, None, 50) { Ok(h) => (0, !h.is_empty(), String::new()), Err(e) => (class(e.kind()), false, String::new()) },
         }));
         match r { Ok((a, b, c2)) => { cls = a; leak = b; npath = c2; } Err(_) => { cls = 8; } }
@@ -134,6 +136,41 @@ fn run_docs(id: &str, c0: u64, calls: &[Vec<u64>], workdir: &str, out: &mut impl
             1 => { req += &format!(" 1 {} {} {}", c[1], c[2], c[3]);
                    match ide.apply_source(&toks[c[1] as usize], "main.st", c[2], text(c[3]), true) { Ok(r) => obs += &format!(" 0 {} {}", r.version, c[3]), Err(e) => match e.current_version() { Some(v) => obs += &format!(" 1 {v}"), None => obs += " 2" } } }
             _ => { req += &format!(" 2 {}", c[1]); std::fs::write(proj.join("main.st"), text(c[1])).unwrap(); obs += " 2"; }
+        }
+    }
+    writeln!(out, "{id} : {req} :{obs}").unwrap();
+    let _ = std::fs::remove_dir_all(&case);
+}
+
+/// several documents in directories whose names share string prefixes; sequential opens / applies / external edits / renames / deletes
+/// m-line:  <id> : ndirs (dir nfiles content…)… calls… : outs…     (calls and outs as in ocaml/c19_main.ml)
+const DIRS: &[&str] = &["lib", "lib_io", "lib2", "core", "core_x", "li"];
+fn run_multi(id: &str, init: &[(usize, Vec<u64>)], calls: &[Vec<u64>], workdir: &str, out: &mut impl Write) {
+    let case = PathBuf::from(workdir).join(format!("case-{}", std::process::id()));
+    let proj = build_tree(&case);
+    let text = |c: u64| format!("(* C{c} *)\n");
+    let num = |s: &str| s.trim().trim_start_matches("(* C").trim_end_matches("*)").trim().parse::<u64>().unwrap_or(999_999);
+    let path = |d: u64, f: u64| format!("{}/f{}.st", DIRS[d as usize], f);
+    let mut req = format!("{}", init.len());
+    for (d, files) in init {
+        std::fs::create_dir_all(proj.join(DIRS[*d])).unwrap();
+        req += &format!(" {d} {}", files.len());
+        for (f, c) in files.iter().enumerate() { std::fs::write(proj.join(path(*d as u64, f as u64)), text(*c)).unwrap(); req += &format!(" {c}"); }
+    }
+    let ide = WebIdeState::new(Some(proj.clone()));
+    let tok = ide.create_session(IdeRole::Editor).unwrap().token;
+    let mut obs = String::new();
+    let fs_class = |e: IdeErrorKind| match e { IdeErrorKind::NotFound => " 3", IdeErrorKind::Conflict => " 4", _ => " 6" };
+    for c in calls {
+        for t in c { req += &format!(" {t}"); }
+        match c[0] {
+            0 => match ide.open_source(&tok, &path(c[1], c[2])) { Ok(s) => obs += &format!(" 0 {} {}", s.version, num(&s.content)), Err(e) => obs += fs_class(e.kind()) },
+            1 => match ide.apply_source(&tok, &path(c[1], c[2]), c[3], text(c[4]), true) { Ok(r) => obs += &format!(" 0 {} {}", r.version, c[4]), Err(e) => match e.current_version() { Some(v) => obs += &format!(" 1 {v}"), None => obs += fs_class(e.kind()) } },
+            2 => { let p = proj.join(path(c[1], c[2])); if p.is_file() { std::fs::write(p, text(c[3])).unwrap(); obs += " 5"; } else { obs += " 3"; } }
+            3 => match ide.rename_entry(&tok, DIRS[c[1] as usize], DIRS[c[2] as usize], true) { Ok(_) => obs += " 5", Err(e) => obs += fs_class(e.kind()) },
+            4 => match ide.rename_entry(&tok, &path(c[1], c[2]), &path(c[3], c[4]), true) { Ok(_) => obs += " 5", Err(e) => obs += fs_class(e.kind()) },
+            5 => match ide.delete_entry(&tok, &path(c[1], c[2]), true) { Ok(_) => obs += " 5", Err(e) => obs += fs_class(e.kind()) },
+            _ => match ide.delete_entry(&tok, DIRS[c[1] as usize], true) { Ok(_) => obs += " 5", Err(e) => obs += fs_class(e.kind()) },
         }
     }
     writeln!(out, "{id} : {req} :{obs}").unwrap();
@@ -196,6 +233,14 @@ fn main() {
                 if base != gid { flush(&gid, &mut group, &mut out); gid = base; }
                 let mut i = 4; let p = decode(&t, &mut i); let p2 = decode(&t, &mut i);
                 group.push(Call { we: t[0] != 0, sk: t[1] as u8, op: t[2] as u8, p, p2 });
+            } else if id.starts_with('m') {
+                flush(&gid, &mut group, &mut out);
+                let tu: Vec<u64> = t.iter().map(|x| *x as u64).collect();
+                let mut i = 1; let mut init = Vec::new();
+                for _ in 0..tu[0] { let d = tu[i] as usize; let nf = tu[i + 1] as usize; init.push((d, tu[i + 2..i + 2 + nf].to_vec())); i += 2 + nf; }
+                let mut calls = Vec::new();
+                while i < tu.len() { let w = match tu[i] { 0 => 3, 1 => 5, 2 => 4, 3 => 3, 4 => 5, 5 => 3, _ => 2 }; calls.push(tu[i..i + w].to_vec()); i += w; }
+                run_multi(id, &init, &calls, &args[4], &mut out);
             } else if id.starts_with('d') {
                 flush(&gid, &mut group, &mut out);
                 let mut calls = Vec::new(); let mut i = 1;
@@ -210,6 +255,7 @@ fn main() {
     let mut out = std::io::BufWriter::new(std::fs::File::create(&args[2]).expect("open output"));
     std::fs::create_dir_all(&args[3]).ok();
     let mut rng = Rng::new(vh::seed_from_env());
+    let shard = vh::seed_from_env() % 1000;
     let case_dir = PathBuf::from(&args[3]).join(format!("case-{}", std::process::id()));
     for k in 0..count {
         match rng.below(10) {
@@ -226,7 +272,38 @@ fn main() {
                     let p2 = if op == 5 { if plain || rng.chance(1, 2) { (*rng.pick(&fresh[..])).to_string() } else { gen_path(&mut rng, &case_dir) } } else { String::new() };
                     Call { we: !rng.chance(1, 6), sk, op, p, p2 }
                 }).collect();
-                run_calls(&format!("p{k}"), &calls, &args[3], &mut out);
+                run_calls(&format!("p{shard}x{k}"), &calls, &args[3], &mut out);
+            }
+            7 if rng.chance(2, 3) => {
+                // directories 0..2 exist with two files each; 3..5 are rename targets
+                let mut next = 10u64;
+                let init: Vec<(usize, Vec<u64>)> = (0..3).map(|d| (d, (0..2).map(|_| { next += 1; next }).collect())).collect();
+                // phase 1: open and edit some files (expected versions tracked so that most writes succeed); phase 2: renames and
+                // deletes; phase 3: more opens and writes, some with the version held before phase 2
+                let mut ver = std::collections::BTreeMap::new();
+                let mut calls: Vec<Vec<u64>> = Vec::new();
+                let edit = |rng: &mut Rng, calls: &mut Vec<Vec<u64>>, ver: &mut std::collections::BTreeMap<(u64, u64), u64>, next: &mut u64, n: i64| {
+                    for _ in 0..n {
+                        *next += 1; let d = rng.below(4); let f = rng.below(2);
+                        match rng.below(10) {
+                            0..=2 => { calls.push(vec![0, d, f]); ver.entry((d, f)).or_insert(1); }
+                            3..=7 => { let v = *ver.get(&(d, f)).unwrap_or(&1); let e = if rng.chance(1, 5) { rng.range(0, 4) as u64 } else { v }; calls.push(vec![1, d, f, e, *next]); if e == v { ver.insert((d, f), v + 1); } }
+                            8 => calls.push(vec![2, d.min(2), f, *next]),
+                            _ => calls.push(vec![0, rng.below(6), f]),
+                        }
+                    }
+                };
+                let n1 = rng.range(2, 7); edit(&mut rng, &mut calls, &mut ver, &mut next, n1);
+                for _ in 0..rng.range(1, 3) {
+                    match rng.below(8) {
+                        0..=4 => calls.push(vec![3, rng.below(3), 3 + rng.below(3)]),
+                        5 => calls.push(vec![3, rng.below(6), rng.below(6)]),
+                        6 => calls.push(vec![4, rng.below(3), rng.below(2), rng.below(6), rng.below(3)]),
+                        _ => if rng.chance(1, 2) { calls.push(vec![5, rng.below(3), rng.below(2)]) } else { calls.push(vec![6, rng.below(3)]) },
+                    }
+                }
+                let n3 = rng.range(2, 7); edit(&mut rng, &mut calls, &mut ver, &mut next, n3);
+                run_multi(&format!("m{shard}x{k}"), &init, &calls, &args[3], &mut out);
             }
             7 | 8 => {
                 let n = rng.range(2, 14);
@@ -236,11 +313,11 @@ fn main() {
                     2 => { next += 1; vec![2, if rng.chance(1, 4) { 0 } else { next + 100 }] }
                     _ => { next += 1; vec![1, rng.below(3), rng.range(0, 8) as u64, next] }
                 }).collect();
-                run_docs(&format!("d{k}"), 0, &calls, &args[3], &mut out);
+                run_docs(&format!("d{shard}x{k}"), 0, &calls, &args[3], &mut out);
             }
             _ => {
                 let big = rng.chance(1, 3);
-                run_threads(&format!("t{k}"), rng.range(2, 6) as usize, if big { 6 } else { rng.range(5, 40) as usize }, big, &args[3], &mut out);
+                run_threads(&format!("t{shard}x{k}"), rng.range(2, 6) as usize, if big { 6 } else { rng.range(5, 40) as usize }, big, &args[3], &mut out);
             }
         }
     }
